@@ -7,6 +7,7 @@ package mcp
 
 import (
 	"context"
+	"encoding/json"
 	"strings"
 	"time"
 )
@@ -29,6 +30,12 @@ func c06Server(mode int) (*Server, string, string) {
 	srv := NewServer("srv", "1.0", opts...)
 	log := &verifToolLog{}
 	srv.RegisterTool(NewTool("t"), verifToolHandler(log, 0, "hello"))
+	srv.RegisterPrompt(&Prompt{Name: "p"}, func(ctx context.Context, r *GetPromptRequest) (*GetPromptResult, error) {
+		return &GetPromptResult{Messages: []PromptMessage{{Role: RoleUser, Content: NewTextContent("hi")}}}, nil
+	})
+	srv.RegisterResource(&Resource{URI: "file:///r", Name: "r"}, func(ctx context.Context, r *ReadResourceRequest) (ResourceContents, error) {
+		return TextResourceContents{URI: "file:///r", Text: "body"}, nil
+	})
 	session := ""
 	if mode == 3 {
 		rec := newVerifRecorder()
@@ -59,10 +66,14 @@ func H_C06_streamable() {
 		return
 	}
 	var body []byte
-	if vChoice("bodyKind", 2) == 0 {
+	switch vChoice("bodyKind", 3) {
+	case 0:
 		body = vJSON("req", 2)
-	} else {
+	case 1:
 		body = vJSONInvalid()
+	default:
+		// a well-formed envelope for a served method with arbitrary params (every JSON kind in every field the handlers read)
+		body = c06MethodDoc()
 	}
 	rec := newVerifRecorder()
 	srv.httpHandler.ServeHTTP(rec, verifRequest(verb, "/mcp", body, "Accept", accept, "Mcp-Session-Id", sid))
@@ -93,6 +104,19 @@ func H_C06_streamable() {
 	vReach("end")
 }
 
+// c06MethodDoc: tools/call, prompts/get or resources/read addressed to a registered entry, or any served method, with lazy params.
+func c06MethodDoc() []byte {
+	methods := []string{"tools/call", "prompts/get", "resources/read", "initialize", "completion/complete", "resources/subscribe"}
+	m := methods[vChoice("method", len(methods))]
+	params := vJSON("params", 2)
+	doc := map[string]interface{}{"jsonrpc": "2.0", "id": 3, "method": m, "params": json.RawMessage(params)}
+	b, err := json.Marshal(doc)
+	if err != nil {
+		panic(err)
+	}
+	return b
+}
+
 func c03FrameOf(rec *verifRecorder, sse bool) (interface{}, bool) {
 	if !sse {
 		return verifParse(rec.body)
@@ -115,14 +139,22 @@ func H_C06_stdio() {
 	srv := NewStdioServer("srv", "1.0")
 	log := &verifToolLog{}
 	srv.RegisterTool(NewTool("t"), verifToolHandler(log, 0, "hello"))
+	srv.RegisterPrompt(&Prompt{Name: "p"}, func(ctx context.Context, r *GetPromptRequest) (*GetPromptResult, error) {
+		return &GetPromptResult{Messages: []PromptMessage{{Role: RoleUser, Content: NewTextContent("hi")}}}, nil
+	})
+	srv.RegisterResource(&Resource{URI: "file:///r", Name: "r"}, func(ctx context.Context, r *ReadResourceRequest) (ResourceContents, error) {
+		return TextResourceContents{URI: "file:///r", Text: "body"}, nil
+	})
 	tr := newStdioTransport(srv.internal)
 	w := &verifWriter2{}
 	var line string
-	switch vChoice("lineKind", 3) {
+	switch vChoice("lineKind", 4) {
 	case 0:
 		line = string(vJSON("req", 3))
 	case 1:
 		line = string(vJSONInvalid())
+	case 2:
+		line = string(c06MethodDoc())
 	default:
 		line = "   "
 	}
@@ -149,6 +181,12 @@ func H_C06_sse() {
 	srv := NewSSEServer("srv", "1.0")
 	log := &verifToolLog{}
 	srv.RegisterTool(NewTool("t"), verifToolHandler(log, 0, "hello"))
+	srv.RegisterPrompt(&Prompt{Name: "p"}, func(ctx context.Context, r *GetPromptRequest) (*GetPromptResult, error) {
+		return &GetPromptResult{Messages: []PromptMessage{{Role: RoleUser, Content: NewTextContent("hi")}}}, nil
+	})
+	srv.RegisterResource(&Resource{URI: "file:///r", Name: "r"}, func(ctx context.Context, r *ReadResourceRequest) (ResourceContents, error) {
+		return TextResourceContents{URI: "file:///r", Text: "body"}, nil
+	})
 	session := &sseSession{done: make(chan struct{}), eventQueue: make(chan string, 100), sessionID: "s1",
 		notificationChannel: make(chan *JSONRPCNotification, 100), data: make(map[string]interface{})}
 	srv.sessions.Store("s1", session)
@@ -163,10 +201,13 @@ func H_C06_sse() {
 		q = ""
 	}
 	var body []byte
-	if vChoice("bodyKind", 2) == 0 {
+	switch vChoice("bodyKind", 3) {
+	case 0:
 		body = vJSON("req", 3)
-	} else {
+	case 1:
 		body = vJSONInvalid()
+	default:
+		body = c06MethodDoc()
 	}
 	rec := newVerifRecorder()
 	req := verifRequest(verb, "/message", body)
